@@ -433,9 +433,9 @@ def healthUpdate (s : St) (serial st : Nat) : St × Out :=
   | some w =>
     if w.dead then (s, { err := some "dead" }) else
     if !w.hl then (s, {}) else
-    if w.ejected then ({ s with scws := updScw s.scws serial fun w => { w with latestHealth := st } }, {})
-    else ({ s with scws := updScw s.scws serial fun w => { w with latestHealth := st, last := some st } },
-          { dl := [(serial, true, st)] })
+    ({ s with scws := updScw s.scws serial fun w =>
+         if w.ejected then { w with latestHealth := st } else { w with latestHealth := st, last := some st } },
+     { dl := if w.ejected then [] else [(serial, true, st)] })
 
 def childNewSc (s : St) (id : Nat) : St × Out :=
   if s.cfg.isNone then (s, { err := some "nochild" }) else (newScw s id, {})
